@@ -74,6 +74,21 @@ CHECKS["C05"] = {
     ],
 }
 
+CHECKS["C07"] = {
+    "engine": "storesched",
+    "level": "exploration",
+    "technique": "model-based stateful property testing (rapid) under virtual time + schedule-controlled interleavings of datastore calls with the documented exception implemented literally",
+    "level_text": "Generated add/query/clock/GC/restart/close histories run against the real ProviderManager (tiny LRU, journaling datastore, synctest clock) and are compared with a "
+                  "(key,peer)->last-addition model at every read; a second part interleaves adders, readers, the expiry sweep and Close at datastore-call granularity under a drawn schedule. "
+                  "Exploration: histories and schedules are sampled.",
+    "level_note": "The validity boundary itself is accepted either way; interleavings are explored at datastore calls and mutex acquisitions; the journaling in-memory datastore "
+                  "(go-datastore NaiveQueryApply prefix semantics) stands in for the real one; the sweep is invoked directly (collectExpired) in the interleaving part.",
+    "parts": [
+        {"part": "history", "pkg": REC, "test": "TestVerif_C07_History", "quick": 2000, "thorough": 30000},
+        {"part": "interleave", "pkg": REC, "test": "TestVerif_C07_Interleave", "quick": 600, "thorough": 8000},
+    ],
+}
+
 MANIFEST_HEAD = {
     "version": 1,
     "setup_cmd": "bin/check --setup",
